@@ -32,7 +32,7 @@ var (
 	sched = flag.String("sched", "", "schedules (jsonl) from TLC's state graph")
 )
 
-const unit = time.Hour
+const unit = 500 * time.Millisecond // half a second: the template lifetime is 1 s = 2 units, so instants that differ by one unit can share a wall-clock second
 const ttlUnits = 2
 
 var epoch = time.Unix(1700000000, 0)
@@ -114,7 +114,7 @@ type sys struct {
 
 func newSys(w *vt.Writer, tag string) *sys {
 	clk := &hclock{now: epoch, pending: make(chan *nowReq)}
-	c, err := coll.New("udp", collector.DecodingModeStrict, uint32(ttlUnits*int(unit/time.Second)), clk)
+	c, err := coll.New("udp", collector.DecodingModeStrict, uint32(time.Duration(ttlUnits)*unit/time.Second), clk)
 	if err != nil {
 		panic(err)
 	}
